@@ -65,6 +65,12 @@ func routesOf(p *an.Prog, fn *ssa.Function) []route {
 		}
 		m, ok1 := an.ConstString(args[1])
 		pa, ok2 := an.ConstString(args[2])
+		if !ok2 {
+			// path built by a local helper from a constant: bp("/api/topics")
+			if pc, ok := an.Strip(args[2]).(*ssa.Call); ok && len(pc.Call.Args) >= 1 {
+				pa, ok2 = an.ConstString(pc.Call.Args[len(pc.Call.Args)-1])
+			}
+		}
 		if !ok1 || !ok2 {
 			return
 		}
